@@ -5,6 +5,8 @@
 //   to_string    fn=i32|u32|i64|u64|ill|ull cap= v=   etl::to_string<cap> | std::to_string
 //   from_chars   ty= s=[..] base=             etl::from_chars          | std::from_chars
 //   to_integer   ty= s=[..] base= ws=0|1      strings::to_integer      | (skip blanks) std::from_chars
+//   to_integer_nc ty= s=[..] base= ws=0|1     the same with check_overflow = false; the reference prints `*` when
+//                                             the value is not representable (outside the option's contract)
 //   cstr         fn=strtol|strtoll|strtoul|strtoull|atoi|atol|atoll s=[..] base=   | glibc
 //   sto          fn=stoi|stol|stoll|stoul|stoull s=[..] base=                        | libstdc++
 //   round_trip   ty= v= base=                 to_chars then from_chars | same with std
@@ -178,12 +180,12 @@ auto op_from_chars(Line const& l) -> std::string
 
 auto c_isspace(char c) -> bool { return c == ' ' or (c >= '\t' and c <= '\r'); }
 
-template <typename T, bool Ws>
+template <typename T, bool Ws, bool Check = true>
 auto op_to_integer_t(Line const& l) -> std::string
 {
     proto::heap_buf<char> sb(l.list("s"));
     auto const base    = static_cast<int>(l.i("base"));
-    constexpr auto opt = etl::strings::to_integer_options{.skip_whitespace = Ws, .check_overflow = true};
+    constexpr auto opt = etl::strings::to_integer_options{.skip_whitespace = Ws, .check_overflow = Check};
     auto r             = etl::strings::to_integer<T, opt>(etl::string_view{sb.p, sb.n}, static_cast<T>(base));
     std::string e;
     if (r.error == etl::strings::to_integer_error::none) {
@@ -205,7 +207,7 @@ auto op_to_integer_t(Line const& l) -> std::string
     } else if (q.ec == std::errc::invalid_argument) {
         s = "invalid(0)";
     } else {
-        s = "overflow";
+        s = Check ? "overflow" : "*";
     }
     return out(e, s);
 }
@@ -214,6 +216,12 @@ template <typename T>
 auto op_to_integer(Line const& l) -> std::string
 {
     return l.i("ws") != 0 ? op_to_integer_t<T, true>(l) : op_to_integer_t<T, false>(l);
+}
+
+template <typename T>
+auto op_to_integer_nc(Line const& l) -> std::string
+{
+    return l.i("ws") != 0 ? op_to_integer_t<T, true, false>(l) : op_to_integer_t<T, false, false>(l);
 }
 
 template <typename T>
@@ -406,6 +414,7 @@ auto step(Line const& l) -> std::string
     if (l.op == "from_integer") BY_TYPE(op_from_integer);
     if (l.op == "from_chars") BY_TYPE(op_from_chars);
     if (l.op == "to_integer") BY_TYPE(op_to_integer);
+    if (l.op == "to_integer_nc") BY_TYPE(op_to_integer_nc);
     if (l.op == "round_trip") BY_TYPE(op_round_trip);
     if (l.op == "to_chars_all") BY_TYPE(op_to_chars_all);
 #undef BY_TYPE
